@@ -20,7 +20,9 @@ SAN_FLAGS = {
     "fuzz": ("clang++", "-O1 -g -fno-omit-frame-pointer -fsanitize=fuzzer,address"),
 }
 
-ASAN = "abort_on_error=1:halt_on_error=1:allocator_may_return_null=1:detect_stack_use_after_return=0:print_summary=1"
+# hard_rss_limit_mb: a runaway allocation (an endless re-parse, say) ends the worker at 6 GiB resident instead of
+# inviting the kernel's out-of-memory killer
+ASAN = "abort_on_error=1:halt_on_error=1:allocator_may_return_null=1:detect_stack_use_after_return=0:print_summary=1:hard_rss_limit_mb=6144"
 ASAN_ENV = {"ASAN_OPTIONS": ASAN + ":detect_leaks=1", "UBSAN_OPTIONS": "print_stacktrace=1:halt_on_error=1",
             "LSAN_OPTIONS": "exitcode=23"}
 ASAN_NOLEAK_ENV = {"ASAN_OPTIONS": ASAN + ":detect_leaks=0", "UBSAN_OPTIONS": "print_stacktrace=1:halt_on_error=1"}
